@@ -137,7 +137,12 @@ namespace GeographicLib {
     // Deatanhe(x,y) = eatanhe((x-y)/(1-e^2*x*y))/(x-y)
     real Deatanhe(real x, real y) const {
       real t = x - y, d = 1 - _e2 * x * y;
-      return t != 0 ? Math::eatanhe(t / d, _es) / t : _e2 / d;
+      // For x*y < 0, d can be <= 0 for very prolate ellipsoids; so don't use
+      // the addition formula then (cf. AlbersEqualArea::Datanhee).
+      return t != 0 ?
+        (x * y < 0 ? Math::eatanhe(x, _es) - Math::eatanhe(y, _es) :
+         Math::eatanhe(t / d, _es)) / t :
+        _e2 / d;
     }
     void Init(real sphi1, real cphi1, real sphi2, real cphi2, real k1);
   public:
